@@ -4,7 +4,7 @@ CONSTANTS
   RichModels = {"prims", "enums", "hier", "mixin", "rec"}
   RichDepth = 1
   BaseDepth = 3
-  NParam = 60
+  NParam = 40
   ParamDepth = 1
   MutDepth = 2
   MutStar = TRUE
